@@ -191,6 +191,12 @@ func sweepDomain() *sweepDom {
 	return sweepDomVal
 }
 
+func sweepExact(b []byte) []byte {
+	out := make([]byte, len(b))
+	copy(out, b)
+	return out[:len(b):len(b)]
+}
+
 // ---------------------------------------------------------------- panic capture
 
 type sweepPanic struct {
@@ -303,6 +309,9 @@ type sweepRun struct {
 
 func (r *sweepRun) fail(clause, site, kind, rest string) {
 	k := clause + "|" + site + "|" + kind
+	if strings.HasPrefix(rest, "src=") {
+		k += "|" + strings.SplitN(rest, ";", 2)[0]
+	}
 	if r.seen[k] {
 		return
 	}
@@ -475,7 +484,9 @@ func (r *sweepRun) run(lt gopacket.LayerType, mask int, data []byte) string {
 	if pseudo {
 		ltName = dom.pseudoName[lt]
 	}
-	cp := func() []byte { return append([]byte(nil), data...) }
+	// every call gets its own copy with capacity == length: a slice expression is checked against the
+	// capacity, so spare capacity would turn a missing length check into a silent over-read
+	cp := func() []byte { return sweepExact(data) }
 
 	// ---- C19 (a): direct DecodeFromBytes on fresh objects
 	var directs []sweepDirect
@@ -517,7 +528,7 @@ func (r *sweepRun) run(lt gopacket.LayerType, mask int, data []byte) string {
 	}
 
 	// ---- C19 (b): NewPacket with SkipDecodeRecovery
-	var skipPanic [2]bool // by DecodeStreamsAsDatagrams
+	var skipPanic [4]bool // by Lazy | DecodeStreamsAsDatagrams<<1
 	sclass := "ok"
 	for i := 0; i < 4 && !pseudo; i++ {
 		opts := gopacket.DecodeOptions{SkipDecodeRecovery: true, Lazy: i&1 != 0, DecodeStreamsAsDatagrams: i&2 != 0}
@@ -528,7 +539,7 @@ func (r *sweepRun) run(lt gopacket.LayerType, mask int, data []byte) string {
 			_ = pk.Layers()
 		})
 		if p != nil {
-			skipPanic[i>>1] = true
+			skipPanic[i] = true
 			sclass = "panic"
 			r.fail("C19:panic", p.site, p.kind, fmt.Sprintf("mode=skiprecovery;lt=%s;lazy=%v;dgram=%v;msg=%s", ltName, opts.Lazy, opts.DecodeStreamsAsDatagrams, p.msg))
 		}
@@ -572,14 +583,14 @@ func (r *sweepRun) run(lt gopacket.LayerType, mask int, data []byte) string {
 			continue
 		}
 		ls := r.readOnly(pk, lt, ltName, combo, opts.Lazy)
-		r.discipline(pk, ls, lt, ltName, combo, directs, skipPanic[combo>>3&1])
+		r.discipline(pk, ls, lt, ltName, combo, directs, skipPanic[combo&1|combo>>3&1<<1])
 		if firstCombo {
 			firstCombo = false
 			nLayers = len(ls)
 			if pk.ErrorLayer() != nil {
 				hasErr = 1
 			}
-			r.packetTags(pk, ls, skipPanic[combo>>3&1])
+			r.packetTags(pk, ls, skipPanic[combo&1|combo>>3&1<<1])
 			// ---- C07 / C06 on every layer of this packet
 			var nl gopacket.NetworkLayer
 			sweepCatch(func() { nl = pk.NetworkLayer() })
